@@ -55,6 +55,8 @@ pub enum Action<'a> {
     Selfcheck(u64, u64),
     Survey(u64, u64),
     Record(&'a Path, &'a Path),
+    /// (seed, idx, variant, tier, print the scenario instead of executing it)
+    Probe(u64, u64, u64, crate::core::Tier, bool),
 }
 
 fn act<P: Property>(a: &Action) -> i32 {
@@ -64,6 +66,7 @@ fn act<P: Property>(a: &Action) -> i32 {
         Action::Selfcheck(seed, n) => core::selfcheck::<P>(*seed, *n),
         Action::Survey(seed, n) => core::survey::<P>(*seed, *n),
         Action::Record(a, b) => core::record::<P>(a, b),
+        Action::Probe(seed, idx, variant, tier, print) => core::probe::<P>(*seed, *idx, *variant, *tier, *print),
     }
 }
 
